@@ -204,6 +204,9 @@ func genTxOutObj(c *ctx) *gen {
 				return fmt.Sprintf("%s %d %s %s", cons2, id, hlib.CoqBytes(qb), dres(e == nil, coqTxOut(o.Denomination, o.Address, o.Lock)))
 			})
 			c.rep.Count(fmt.Sprintf("txout-dec:%v", e == nil))
+			if e == nil && qd.Denomination != nil && *qd.Denomination > 255 {
+				c.fail("obj/TxOut/accepts-wide-denomination", fmt.Sprintf("wire denomination %d decoded as %d", *qd.Denomination, o.Denomination))
+			}
 		} else {
 			cons2 = "CUtxoDec"
 			var o types.UtxoEntry
@@ -212,6 +215,9 @@ func genTxOutObj(c *ctx) *gen {
 				return fmt.Sprintf("%s %d %s %s", cons2, id, hlib.CoqBytes(qb), dres(e == nil, coqTxOut(o.Denomination, o.Address, o.Lock)))
 			})
 			c.rep.Count(fmt.Sprintf("utxo-dec:%v", e == nil))
+			if e == nil && qd.Denomination != nil && *qd.Denomination > 255 {
+				c.fail("obj/UtxoEntry/accepts-wide-denomination", fmt.Sprintf("wire denomination %d decoded as %d", *qd.Denomination, o.Denomination))
+			}
 		}
 	}}
 }
